@@ -193,7 +193,7 @@ def main(tier):
                              mb.BaseMatcher._match_non_emitting_states, mb.BaseMatcher._match_non_emitting_states_inner,
                              mb.BaseMatcher._match_non_emitting_states_end, mb.BaseMatcher._build_matching_path)
     budget = 60 if tier == 'quick' else 900
-    core_s = 16 * (120 if tier == 'quick' else 1500)
+    core_s = 16 * (120 if tier == 'quick' else 900)
     kres = run_instances(run_instance, [('update', c) for c in ('BaseMatching', 'SimpleMatching', 'DistanceMatching')])
     res = gabs.run_all(rep, run_instance, b_instances(tier), budget, core_s)
     rep.bounds = dict(update="two entries of the same key, symbolic scores and stop flags, every slot of the class",
